@@ -85,6 +85,8 @@ class Judge:
                  tol=k.get("tol"), p0=k.get("p0"), ws_strategy=k.get("ws_strategy"),
                  use_acc=k.get("use_acc"), greedy_cd=k.get("greedy_cd"),
                  positive=bool(s.pargs.get("positive", False)),
+                 constrained=bool(s.pargs.get("positive", False))
+                 or s.pname in ("IndicatorBox", "PositiveConstraint"),
                  zero_weights=bool(np.any(np.asarray(s.pargs.get("weights", [1.0])) == 0)),
                  degenerate=s.data.get("degen"), engine=s.plan.get("engine"),
                  max_abs_c=(res.get("seam") or {}).get("max_abs_c", 0.0),
